@@ -270,3 +270,86 @@ func VerifH_C16_map_keys() {
 		verifAssert(v.String() == "refused", "writing a name that is not a key of the map's key type is refused with an error the script sees")
 	}
 }
+
+// C16-H4: a property name used as the key of a bridged Go map with an integer
+// key type (stringToReflectValue): it either is not a key (error) or denotes
+// exactly the returned integer - the canonical decimal numeral of that value,
+// within the key type's range. No wrap-around at the width, no second
+// spelling ("010", "0x10", "+5", "1_0") aliasing another key.
+func verifCanonicalInt(v int64) string {
+	if v == 0 {
+		return "0"
+	}
+	neg := v < 0
+	var digits []byte
+	u := uint64(v)
+	if neg {
+		u = uint64(-v)
+	}
+	for u > 0 {
+		digits = append([]byte{byte('0' + u%10)}, digits...)
+		u /= 10
+	}
+	if neg {
+		return "-" + string(digits)
+	}
+	return string(digits)
+}
+
+var verifKeyAlphabet = func() (t [256]bool) {
+	for _, c := range []byte("0123456789+-_xXbBoOaAfF. e") {
+		t[c] = true
+	}
+	return
+}()
+
+func VerifH_C16_map_key_conversion() {
+	n := 1 + verifChoose(verifParam("maxlen", 3))
+	if d := verifParam("digits", 0); d > 0 {
+		n = d // exactly d decimal digits, optionally signed: the range checks at the key type's width
+	}
+	s := verifNondetString(n)
+	for i := 0; i < n; i++ {
+		if verifParam("digits", 0) > 0 {
+			verifAssume(s[i] >= '0' && s[i] <= '9' || (i == 0 && s[i] == '-'))
+		} else {
+			verifAssume(verifKeyAlphabet[s[i]])
+		}
+	}
+	kinds := []reflect.Kind{reflect.Int8, reflect.Int16, reflect.Int32, reflect.Int64, reflect.Int, reflect.Uint8, reflect.Uint16, reflect.Uint32, reflect.Uint64, reflect.Uint}
+	k := verifChoose(len(kinds))
+	var rv reflect.Value
+	var err error
+	kind, _ := verifCatch(func() { rv, err = stringToReflectValue(s, kinds[k]) })
+	verifCover("reached")
+	verifAssert(kind == verifNormal, "no Go panic")
+	if kind != verifNormal || err != nil {
+		verifCover("rejected")
+		return
+	}
+	verifCover("accepted")
+	var got int64
+	if k <= 4 {
+		got = rv.Int()
+	} else {
+		got = int64(rv.Uint())
+	}
+	if verifParam("digits", 0) > 0 {
+		// numeric comparison (cheaper for the solver than building the numeral)
+		var ref int64
+		start := 0
+		if s[0] == '-' {
+			start = 1
+		}
+		for i := start; i < n; i++ {
+			ref = ref*10 + int64(s[i]-'0')
+		}
+		if start == 1 {
+			ref = -ref
+		}
+		canonical := s[start] != '0' || (n == 1)
+		verifAssert(got == ref && canonical, "an accepted digit string denotes exactly the returned key (no wrap at the key type's width, canonical spelling)")
+		return
+	}
+	verifAssert(verifCanonicalInt(got) == s, "an accepted property name is the canonical decimal numeral of the key it is converted to")
+}
